@@ -296,7 +296,12 @@ def lower_docs(docs):
                             fa['req'] = 'required'      # pilota-thrift-parser function.rs: Default -> Required
                         args.append(fa)
                     for sfx in ('ArgsSend', 'ArgsRecv'):
-                        sch.add(d.name + '.' + base + sfx, dict(kind='struct', fields=[dict(x) for x in args],
+                        fs = [dict(x) for x in args]
+                        if sfx == 'ArgsRecv':
+                            # thrift/mod.rs lower_service: the receiving side drops the argument's RustWrapperArc tag
+                            for x in fs:
+                                x['ann'] = {k: v for k, v in x['ann'].items() if k != 'pilota.rust_wrapper_arc'}
+                        sch.add(d.name + '.' + base + sfx, dict(kind='struct', fields=fs,
                                                                 rust=mod + '::' + base + sfx, flags='k', exception=False,
                                                                 synth=(g, m.name, sfx)))
                     for sfx in ('ResultSend', 'ResultRecv'):
@@ -348,8 +353,15 @@ def unescape(text):
 
 
 def dbl_bits(x):
-    if isinstance(x, str) and x.startswith('-+'):
-        x = '-' + x[2:]            # the IDL grammar lets a `+` follow the `-`: -(+x)
+    if isinstance(x, str):
+        m = re.match(r'^([^eE]*)[eE](-*)(0x[0-9a-fA-F]+|[0-9]+)$', x)
+        if m:
+            # the exponent of a double constant is an IDL integer constant: a run of `-` signs (negated when their number is
+            # odd), then decimal or 0x hexadecimal digits
+            e = int(m.group(3), 16) if m.group(3).startswith('0x') else int(m.group(3))
+            x = '%se%d' % (m.group(1), -e if len(m.group(2)) % 2 else e)
+        if x.startswith('-+'):
+            x = '-' + x[2:]        # the IDL grammar lets a `+` follow the `-`: -(+x)
     return struct.unpack('>Q', struct.pack('>d', float(x)))[0]
 
 
@@ -1114,6 +1126,71 @@ def corpus():
         ]),
     ], includes=['inc'], style=2))
 
+    # ---- sdef: IDL defaults written in the ARGUMENT lists of service methods (every literal kind, optional and default
+    # requiredness -- the parser makes default-requiredness arguments required), on exceptions and on a result type.  Both
+    # synthesised argument structs (<Service><Method>ArgsSend / ArgsRecv) are generated Thrift structs with Default / Message impls
+    docs.append(Doc('sdef', [
+        Enum('Mode', [('SAFE', 1), ('FAST', 2), ('NEG', -4)]),
+        Typedef('Count', 'i32'), Typedef('Label', 'string'), Typedef('Modes', L(R('Mode'))), Typedef('OnOff', 'bool'),
+        Const('K_I', 'i32', I(42)), Const('K_S', 'string', Str('const s')), Const('K_D', 'double', D('2.5')),
+        Const('K_M', R('Mode'), Id('Mode.FAST')), Const('K_B', 'bool', ('bool', True)),
+        Struct('Oops', [F(1, 'message', 'string', 'default', Str('boom')), F(2, 'code', 'i32', 'required', I(500)),
+                        F(3, 'retry', 'bool', 'optional', I(1)), F(4, 'tags', L('string'), 'default', LL(Str('a'), Str('b', "'"))),
+                        F(5, 'mode', R('Mode'), 'default', Id('Mode.FAST')), F(6, 'delay', 'double', 'optional', I(3))], exception=True),
+        Struct('Quiet', [F(1, 'why', 'string', 'optional', Str('q')), F(2, 'n', 'i64', 'required')], exception=True),
+        Struct('Res', [F(1, 'n', 'i32', 'default', I(7)), F(2, 's', 'string', 'optional'), F(3, 'm', M('string', 'i32'), 'default', LM((Str('k'), I(1))))]),
+        Service('Calc', [
+            Method('scale', 'i32', [F(1, 'factor', 'i32', 'default', I(10)), F(2, 'unit', 'string', 'optional', Str('ms')),
+                                    F(3, 'mode', R('Mode'), 'default', Id('Mode.SAFE')), F(4, 'steps', L('i32'), 'optional', LL(I(1), I(2)))],
+                   [F(1, 'oops', R('Oops'))]),
+            Method('ints', 'void', [F(1, 'a', 'i8', 'default', I(-128)), F(2, 'b', 'i16', 'optional', I(32767)), F(3, 'c', 'i64', 'default', I(-9000000000)),
+                                    F(4, 'd', 'byte', 'optional', I(5)), F(5, 'e', 'bool', 'default', I(1)), F(6, 'f', 'bool', 'optional', I(0)),
+                                    F(7, 'g', 'bool', 'default', ('bool', True)), F(8, 'h', 'bool', 'optional', I(3))]),
+            Method('dbls', 'double', [F(1, 'a', 'double', 'default', I(2)), F(2, 'b', 'double', 'optional', D('1.25')), F(3, 'c', 'double', 'default', D('-1.5e10')),
+                                      F(4, 'd', 'double', 'optional', I(-7)), F(5, 'e', 'double', 'default', I(16777217)),
+                                      F(6, 'f', 'double', 'optional', I(9007199254740993)), F(7, 'g', S('double'), 'default', LL(I(1), D('0.5')))]),
+            Method('strs', 'string', [F(1, 'a', 'string', 'default', Str('double "quoted"'.replace('"', '\\"'))), F(2, 'b', 'string', 'optional', Str('single " inside', "'")),
+                                      F(3, 'c', 'string', 'default', Str('line\\nnl \\\\ back')), F(4, 'd', 'string', 'optional', Str('')),
+                                      F(5, 'e', 'string', 'default', Str('std'), rust_type='string'), F(6, 'f', 'string', 'optional', Str('héllo 日本')),
+                                      F(7, 'g', 'binary', 'default', Str('bytes\\nhere')), F(8, 'h', 'binary', 'optional', Str(''))],
+                   [F(1, 'oops', R('Oops')), F(2, 'quiet', R('Quiet'))]),
+            Method('enums', R('Mode'), [F(1, 'a', R('Mode'), 'default', Id('Mode.FAST')), F(2, 'b', R('Mode'), 'optional', I(1)), F(3, 'c', R('Mode'), 'default', I(-4)),
+                                        F(4, 'd', 'i32', 'optional', Id('Mode.NEG')), F(5, 'e', R('inc.Color'), 'default', Id('inc.Color.GREEN')),
+                                        F(6, 'f', 'i8', 'default', Id('Mode.SAFE'))]),
+            Method('consts', 'void', [F(1, 'a', 'i32', 'default', Id('K_I')), F(2, 'b', 'string', 'optional', Id('K_S')), F(3, 'c', 'double', 'default', Id('K_D')),
+                                      F(4, 'd', R('Mode'), 'optional', Id('K_M')), F(5, 'e', 'i32', 'default', Id('inc.ORIGIN_X')), F(6, 'f', 'bool', 'optional', Id('K_B')),
+                                      F(7, 'g', 'string', 'default', Id('K_S'), rust_type='string'), F(8, 'h', 'i64', 'default', Id('K_M'))], oneway=True),
+            Method('conts', L('string'), [F(1, 'a', L('i32'), 'default', LL(I(1), I(-2), I(3))), F(2, 'b', L('i32'), 'optional', LL()),
+                                          F(3, 'c', L(L('i16')), 'default', LL(LL(I(1)), LL())), F(4, 'd', S('i64'), 'optional', LL(I(5), I(6))),
+                                          F(5, 'e', S('i32'), 'default', LL(I(3), I(1)), rust_type='btree'),
+                                          F(6, 'f', M('string', 'string'), 'default', LM((Str('hello'), Str('world')))), F(7, 'g', M('string', 'i32'), 'optional', LL()),
+                                          F(8, 'h', M(R('Mode'), L('i32')), 'default', LM((Id('Mode.SAFE'), LL(I(1))), (I(2), LL()))),
+                                          F(9, 'i', M('string', 'i32'), 'optional', LM((Str('b'), I(2)), (Str('a'), I(1))), rust_type='btree'),
+                                          F(10, 'j', M('i32', M('i32', 'string')), 'default', LM((I(1), LM((I(2), Str('x')))))),
+                                          F(11, 'k', L(R('Mode')), 'optional', LL(Id('Mode.FAST'), I(1)))]),
+            Method('tdefs', R('Count'), [F(1, 'a', R('Count'), 'default', I(77)), F(2, 'b', R('Label'), 'optional', Str('label')),
+                                         F(3, 'c', R('Modes'), 'default', LL(I(1), Id('Mode.NEG'))), F(4, 'd', R('OnOff'), 'optional', I(1)),
+                                         F(5, 'e', R('Count'), 'default', Id('K_I'))]),
+            # defaults next to arguments without one: decode(empty) must fail exactly on the required ones without a default
+            Method('mixed', R('Res'), [F(1, 'a', 'i32'), F(2, 'b', 'string', 'optional'), F(3, 'c', 'i32', 'default', I(3)), F(4, 'd', R('Res'), 'optional'),
+                                       F(9, 'e', 'string', 'optional', Str('last'))], [F(3, 'quiet', R('Quiet'))]),
+            Method('onlyOptional', 'void', [F(1, 'a', 'i32', 'optional', I(1)), F(2, 'b', L('string'), 'optional', LL(Str('x')))], camel='OnlyOptional'),
+        ]),
+    ], includes=['inc'], style=1))
+
+    # ---- sdefs: struct literals as argument defaults (plain / split only, F-14d)
+    docs.append(Doc('sdefs', [
+        Struct('Pt', [F(1, 'x', 'i32', 'required'), F(2, 'y', 'i32', 'optional', I(5)), F(3, 'label', 'string')]),
+        Typedef('PtAlias', R('Pt')),
+        Service('Geo', [
+            Method('shift', R('Pt'), [F(1, 'from', R('Pt'), 'default', LM((Str('x'), I(1)), (Str('label'), Str('o')))),
+                                     F(2, 'to', R('Pt'), 'optional', LM((Str('x'), I(2)), (Str('y'), I(3)))),
+                                     F(3, 'via', L(R('Pt')), 'default', LL(LM((Str('x'), I(4))))),
+                                     F(4, 'al', R('PtAlias'), 'optional', LM((Str('x'), I(6)))),
+                                     F(5, 'inc', R('inc.Pt'), 'default', LM((Str('x'), I(1)), (Str('y'), I(2))))]),
+        ]),
+    ], includes=['inc'], style=2, configs=('plain', 'split')))
+
     # ---- evo: shapes aimed at schema evolution / failure-path properties (C08, C13, C19)
     docs.append(Doc('evo', [
         Struct('Sub', [F(1, 'name', 'string', 'required'), F(2, 'vals', L('i64'))]),
@@ -1139,6 +1216,7 @@ REPAIR_MARKERS = {
     'arc-field-default': r'\(l,\s*CodegenTy::Arc\(inner_ty\)\)\s*=>',
     'container-const-reference': r'return\s+self\.lit_as_rvalue\(&c\.lit,\s*ty\);',
     'double-sign-run': r'fn\s+parse_double\s*\(',
+    'double-exponent-form': r'text\.split_once\(\[\'e\',\s*\'E\'\]\)',
 }
 
 
@@ -1171,6 +1249,12 @@ def repair_docs():
             F(8, 'tp', R('P2'), 'default', LM((Str('n'), I(7))), rust_wrapper_arc='true'),
             F(9, 'nod', R('P'), 'optional', rust_wrapper_arc='true'),
         ]),
+        # the same on method arguments: ArgsSend keeps the Arc, ArgsRecv holds the plain type; the default is the same value
+        Service('ArcSvc', [
+            Method('put', 'void', [F(1, 'p', R('P'), 'default', LM((Str('n'), I(8))), rust_wrapper_arc='true'),
+                                   F(2, 's', 'string', 'optional', Str('arg'), rust_type='string', rust_wrapper_arc='true'),
+                                   F(3, 'lp', L(R('P')), 'optional', LL(LM((Str('n'), I(9)))), rust_wrapper_arc='true')]),
+        ]),
     ], style=0, configs=('plain', 'split'))))
     # a reference to a const of list / set / map type
     out.append(('container-const-reference', Doc('dcref', [
@@ -1185,6 +1269,10 @@ def repair_docs():
             F(7, 'bs', S('string'), 'default', Id('KSET'), rust_type='btree'), F(8, 'sd', S('double'), 'default', Id('KSD')),
             F(9, 'mv', M('i32', L('i32')), 'default', LM((I(1), Id('KL')))),
         ]),
+        Service('CRefSvc', [
+            Method('take', 'void', [F(1, 'l', L('i32'), 'default', Id('KL')), F(2, 's', S('string'), 'optional', Id('KSET')),
+                                    F(3, 'm', M('string', 'i32'), 'default', Id('KM'))]),
+        ]),
     ], style=1)))
     # the double constant `-+x`
     out.append(('double-sign-run', Doc('dsign', [
@@ -1193,6 +1281,16 @@ def repair_docs():
                         F(3, 's', S('double'), 'default', LL(D('-+0.5'))), F(4, 'p', 'double', 'default', D('+2.5')),
                         F(5, 'c', 'double', 'default', Id('KD')), F(6, 'z', 'double', 'default', D('-+0.0'))]),
     ], style=2)))
+    # a double constant whose exponent has several `-` signs or 0x digits (the exponent is an IDL integer constant)
+    out.append(('double-exponent-form', Doc('dexp', [
+        Const('KE', 'double', D('2.5e--1')), Const('KH', 'double', D('1e0x10')),
+        Struct('Exp', [F(1, 'a', 'double', 'default', D('1.5e--3')), F(2, 'b', 'double', 'required', D('1e---2')),
+                       F(3, 'c', 'double', 'optional', D('1e0x10')), F(4, 'd', 'double', 'default', D('-2.5E-0x2')),
+                       F(5, 's', S('double'), 'default', LL(D('1e--1'), D('0.5e0xA'))), F(6, 'm', M('double', 'double'), 'default', LM((D('1e----0'), D('.5e--2')))),
+                       F(7, 'k', 'double', 'default', Id('KE')), F(8, 'plain', 'double', 'default', D('1.5e-3')),
+                       F(9, 'big', 'double', 'default', D('1e0x1F4')), F(10, 'z', 'double', 'default', D('1.e---0x0'))]),
+        Service('ExpSvc', [Method('pow', 'double', [F(1, 'x', 'double', 'default', D('1e--2')), F(2, 'y', 'double', 'optional', D('2e0x2'))])]),
+    ], style=0)))
     return out
 
 
@@ -1206,6 +1304,8 @@ def repair_doc_class(doc):
             out.add('arc-field-default')
         if lit[0] == 'dbl' and lit[1].startswith('-+'):
             out.add('double-sign-run')
+        if lit[0] == 'dbl' and re.search(r'[eE](--|-?0x)', lit[1]):
+            out.add('double-exponent-form')
         if lit[0] == 'id' and lit[1] in consts and isinstance(consts[lit[1]].ty, tuple) and consts[lit[1]].ty[0] in ('list', 'set', 'map'):
             out.add('container-const-reference')
         if lit[0] == 'list':
@@ -1221,6 +1321,11 @@ def repair_doc_class(doc):
             for f in it.fields:
                 if f.default is not None:
                     walk(f.default, f.ty, f.ann)
+        if it.kind == 'service':
+            for m in it.methods:
+                for f in m.args:
+                    if f.default is not None:
+                        walk(f.default, f.ty, f.ann)
     return out
 
 
